@@ -124,6 +124,29 @@ Theorem c14_partial_success_reported_iff : forall e1 e2 bo cf cfg (p : partial_i
 Proof. exact partial_report_iff. Qed.
 Print Assumptions c14_partial_success_reported_iff.
 
+(** Shutdown while the export sleeps in the back-off after attempt k (no elapsed limit, every earlier reply
+    retry-able, the context quiet before): for the exporters whose Shutdown cancels the export's context
+    ([Interrupts]: otlptracehttp, otlptracegrpc) attempt k is the last one and the export ends with the context
+    error - for every script, clock and back-off.  For the other four ([shutdown_mode_of]) Shutdown does not touch
+    the export's context: the run is the run without Shutdown ([..._refuted] below, known finding F-C14-2). *)
+Theorem c14_shutdown_during_wait : forall e1 e2 bo cf cfg outs k,
+  enabled cfg = true -> max_elapsed cfg = 0 ->
+  (k < length outs)%nat -> (forall j, (j <= k)%nat -> is_retry (nth j outs OFinal) = true) ->
+  (forall j d, (j < k)%nat -> cf j d = false) ->
+  let o := retry_run e1 e2 bo (ctx_with_shutdown Interrupts k cf) cfg outs in
+  attempts o = S k /\ res o = RErr ECtx.
+Proof. exact shutdown_interrupts. Qed.
+Print Assumptions c14_shutdown_during_wait.
+
+Theorem c14_shutdown_during_wait_metric_log_refuted :
+  (forall mode at_wait cf, mode <> Interrupts -> forall k d, ctx_with_shutdown mode at_wait cf k d = cf k d) /\
+  (forall e, In e [1; 2; 4; 5]%N ->
+     attempts (retry_run (fun _ => 0) (fun _ => 0) (fun _ => 0)
+                 (ctx_with_shutdown (shutdown_mode_of e) 0 (fun _ _ => false))
+                 {| enabled := true; max_elapsed := 0 |} [ORetry 0; ORetry 0; OSuccess false]) = 3%nat).
+Proof. split; [exact shutdown_no_effect | exact shutdown_not_interrupting_witness]. Qed.
+Print Assumptions c14_shutdown_during_wait_metric_log_refuted.
+
 (** ** Non-vacuity *)
 Definition ex_cfg : config := {| enabled := true; max_elapsed := 1000 |}.
 Definition ex_script : list response :=
